@@ -2631,7 +2631,14 @@ func (t *task) complete(bq *InMemoryBuildQueue, executeResponse *remoteexecution
 		// after completion. This reduces memory usage
 		// significantly. Keep the Action digest, so that
 		// there's still a way to figure out what the task was.
-		delete(bq.inFlightDeduplicationMap, t.actionDigest)
+		// Only remove the in-flight deduplication entry if it
+		// refers to this task. Tasks that have DoNotCache set
+		// (e.g., background learning tasks) are never part of
+		// the map, but may share their digest with a cacheable
+		// task that is still in flight.
+		if bq.inFlightDeduplicationMap[t.actionDigest] == t {
+			delete(bq.inFlightDeduplicationMap, t.actionDigest)
+		}
 		t.executeResponse = executeResponse
 		t.desiredState.Action = nil
 		close(t.stageChangeWakeup)
